@@ -148,37 +148,37 @@ func (p *probe) HoldV(req int64, rule string) string {
 }
 
 type pStep struct {
-	Op      string     `json:"op"` // req | release | wait | update | incr | remove | clear | setmodel | snapshot | sleep
-	ID      int64      `json:"id"`
-	Method  string     `json:"method"`
-	HoldAt  string     `json:"hold_at"`  // rule at which the request is held ("" = not held)
-	Names   []string   `json:"names"`
-	Layers  [][]string `json:"layers"`
-	B       bool       `json:"b"`
-	N       int        `json:"n"`
-	M       int        `json:"m"`
-	Rules   []pRule    `json:"rules"`
-	Text    string     `json:"text"` // raw text instead of Rules (C10)
-	Model   int        `json:"model"`
-	Probe   []string   `json:"probe"`   // names for IsExist / salience / desc queries
-	Inside  *pStep     `json:"inside"`  // a management op performed from inside rule HoldAt of this request (P.Do)
-	Extra   []string   `json:"extra"`   // extra keys injected with the request (C06)
-	Flag    bool       `json:"flag"`    // Req.Flag: rules of kind "cond" return only when it is set
-	WaitMs  int        `json:"wait_ms"`
+	Op     string     `json:"op"` // req | release | wait | update | incr | remove | clear | setmodel | snapshot | sleep
+	ID     int64      `json:"id"`
+	Method string     `json:"method"`
+	HoldAt string     `json:"hold_at"` // rule at which the request is held ("" = not held)
+	Names  []string   `json:"names"`
+	Layers [][]string `json:"layers"`
+	B      bool       `json:"b"`
+	N      int        `json:"n"`
+	M      int        `json:"m"`
+	Rules  []pRule    `json:"rules"`
+	Text   string     `json:"text"` // raw text instead of Rules (C10)
+	Model  int        `json:"model"`
+	Probe  []string   `json:"probe"`  // names for IsExist / salience / desc queries
+	Inside *pStep     `json:"inside"` // a management op performed from inside rule HoldAt of this request (P.Do)
+	Extra  []string   `json:"extra"`  // extra keys injected with the request (C06)
+	Flag   bool       `json:"flag"`   // Req.Flag: rules of kind "cond" return only when it is set
+	WaitMs int        `json:"wait_ms"`
 }
 
 type pReqObs struct {
-	ID      int64            `json:"id"`
-	Err     bool             `json:"err"`
-	ErrMsg  string           `json:"errmsg,omitempty"`
-	Panic   string           `json:"panic,omitempty"`
-	Result  map[string]int64 `json:"result"`
-	Nil     []string         `json:"nil_entries"`
-	Out     int64            `json:"out"`
-	Done    bool             `json:"done"`
-	Later   map[string]int64 `json:"result_reread"` // the same map read again at the end of the scenario
-	BeginSeq int             `json:"begin_seq"`
-	EndSeq   int             `json:"end_seq"`
+	ID       int64            `json:"id"`
+	Err      bool             `json:"err"`
+	ErrMsg   string           `json:"errmsg,omitempty"`
+	Panic    string           `json:"panic,omitempty"`
+	Result   map[string]int64 `json:"result"`
+	Nil      []string         `json:"nil_entries"`
+	Out      int64            `json:"out"`
+	Done     bool             `json:"done"`
+	Later    map[string]int64 `json:"result_reread"` // the same map read again at the end of the scenario
+	BeginSeq int              `json:"begin_seq"`
+	EndSeq   int              `json:"end_seq"`
 }
 
 type pInst struct {
@@ -186,6 +186,7 @@ type pInst struct {
 	KcID   int      `json:"kc_id"` // identity class of the rule container pointer
 	Rules  []string `json:"rules"` // "name|salience|desc" sorted as SortRules
 	DcKeys []string `json:"dc_keys"`
+	ReqIDs []int64  `json:"req_ids"` // ids of the request objects (any key) found in this instance's data context
 }
 
 type pSnap struct {
@@ -210,12 +211,12 @@ type pSnap struct {
 }
 
 type pOpObs struct {
-	Step  int    `json:"step"`
-	Op    string `json:"op"`
-	Err   bool   `json:"err"`
-	Panic string `json:"panic,omitempty"`
-	BeginSeq int `json:"begin_seq"`
-	EndSeq   int `json:"end_seq"`
+	Step     int    `json:"step"`
+	Op       string `json:"op"`
+	Err      bool   `json:"err"`
+	Panic    string `json:"panic,omitempty"`
+	BeginSeq int    `json:"begin_seq"`
+	EndSeq   int    `json:"end_seq"`
 }
 
 type pScenario struct {
@@ -228,14 +229,14 @@ type pScenario struct {
 }
 
 type pObs struct {
-	ID      int       `json:"id"`
-	NewErr  string    `json:"new_err,omitempty"`
-	Events  []pEvent  `json:"events"`
-	Reqs    []pReqObs `json:"reqs"`
-	Ops     []pOpObs  `json:"ops"`
-	Snaps   []pSnap   `json:"snaps"`
-	MaxIn   int       `json:"max_inside"`
-	Stuck   []int64   `json:"stuck"` // requests that did not finish
+	ID     int       `json:"id"`
+	NewErr string    `json:"new_err,omitempty"`
+	Events []pEvent  `json:"events"`
+	Reqs   []pReqObs `json:"reqs"`
+	Ops    []pOpObs  `json:"ops"`
+	Snaps  []pSnap   `json:"snaps"`
+	MaxIn  int       `json:"max_inside"`
+	Stuck  []int64   `json:"stuck"` // requests that did not finish
 }
 
 func expose(v reflect.Value) reflect.Value {
@@ -324,8 +325,17 @@ func snapshot(gp *engine.GenginePool, step int, probeNames []string) (s pSnap) {
 		in := pInst{Tag: int64(i), KcID: idOf(kc.Pointer()), Rules: kcRules(kc), DcKeys: []string{}}
 		s.IndexOK = s.IndexOK && kcIndexOK(kc)
 		base := expose(r.FieldByName("Dc").Elem().FieldByName("base"))
+		in.ReqIDs = []int64{}
 		for _, k := range base.MapKeys() {
 			in.DcKeys = append(in.DcKeys, k.String())
+			func() {
+				defer func() { _ = recover() }()
+				if rv, ok := base.MapIndex(k).Interface().(reflect.Value); ok && rv.IsValid() && rv.CanInterface() {
+					if ro, ok2 := rv.Interface().(*ReqObj); ok2 && ro != nil {
+						in.ReqIDs = append(in.ReqIDs, ro.Id)
+					}
+				}
+			}()
 		}
 		sort.Strings(in.DcKeys)
 		s.Insts = append(s.Insts, in)
@@ -350,6 +360,9 @@ func snapshot(gp *engine.GenginePool, step int, probeNames []string) (s pSnap) {
 func callPool(gp *engine.GenginePool, st *pStep, data map[string]interface{}, tag *engine.Stag) (error, map[string]interface{}) {
 	switch st.Method {
 	case "ExecuteRulesWithSpecifiedEM":
+		if st.ID%4 == 0 { // no request object at all: the response slot carries the data
+			return gp.ExecuteRulesWithSpecifiedEM("", nil, "Req", data["Req"])
+		}
 		if len(st.Extra) > 0 {
 			return gp.ExecuteRulesWithSpecifiedEM("Req", data["Req"], st.Extra[0], data[st.Extra[0]])
 		}
@@ -439,10 +452,10 @@ func runPoolScenario(sc *pScenario) pObs {
 		return obs
 	}
 	type live struct {
-		done   chan struct{}
-		obs    *pReqObs
-		raw    map[string]interface{}
-		holdK  string
+		done  chan struct{}
+		obs   *pReqObs
+		raw   map[string]interface{}
+		holdK string
 	}
 	lives := map[int64]*live{}
 	var lmu sync.Mutex
@@ -497,6 +510,13 @@ func runPoolScenario(sc *pScenario) pObs {
 			data := map[string]interface{}{"Req": req}
 			for _, k := range st.Extra {
 				data[k] = &ReqObj{Id: st.ID}
+			}
+			// entries the pool must skip when injecting (nil value, empty name) — and must still clean up around
+			if st.ID%3 == 0 {
+				data["opt"] = nil
+			}
+			if st.ID%5 == 0 {
+				data[""] = &ReqObj{Id: st.ID}
 			}
 			tag := &engine.Stag{}
 			stc := *st
@@ -560,6 +580,9 @@ func runPoolScenario(sc *pScenario) pObs {
 				select {
 				case <-lv.done:
 				case <-time.After(6 * time.Second):
+					if st.Op == "wait" { // the script says this request can finish NOW (an instance was handed back): it did not
+						obs.Stuck = append(obs.Stuck, st.ID)
+					}
 				}
 			}
 		case "update", "incr", "remove", "clear", "setmodel":
